@@ -421,6 +421,8 @@ func (self *Fork) updateId(id ForkId) {
 	oldPath := self.path
 	self.path = path.Join(self.node.path, self.id)
 	self.fqname = self.node.call.GetFqid() + "." + encodeJournalName.Replace(self.id)
+	// The metadata objects (and possibly chunks) are replaced below.
+	self.metadatasCache = nil
 	self.metadata = NewMetadata(self.fqname, self.path)
 	self.split_metadata = NewMetadata(self.fqname+".split",
 		path.Join(self.path, "split"))
